@@ -198,6 +198,25 @@ def check_events(case):
                 break
             it = case["items"][pos]
             msg = streams.to_library(it)
+            # the application also WRITES while it listens: a request sent to the device changes nothing in the mirror
+            for wr in case.get("writes", []):
+                if wr["at"] % n == pos:
+                    probe_log.clear()
+                    try:
+                        what = refclient.client_write(client, wr["k"])
+                    except Exception as e:  # noqa
+                        f = lib_exception_failure(e, "client-write")
+                        raise Failure(f.sig, f"before message {pos}: {f.msg}")
+                    if what is None:
+                        continue
+                    labels.add("client-write-mid-stream")
+                    if probe_log:
+                        raise Failure("client-write:events-raised", f"before message {pos}: writing {what} raised {sorted(map(str, probe_log))}")
+                    from harness.props.c15 import diff_views
+
+                    d = diff_views(refclient.library_view(client), ref.view())
+                    if d:
+                        raise Failure(f"client-write:mirror-changed:{d[0]}", f"before message {pos}: writing {what}: {d[1]}")
             probe_log.clear()
             for lg in logs:
                 lg.clear()
@@ -306,7 +325,10 @@ callback_st = st.fixed_dictionaries(
         "rm": st.none() | st.fixed_dictionaries({"at": st.integers(1, 30), "by": st.sampled_from(["id", "criteria", "criteria+callback"])}),
     }
 )
-case_st = st.fixed_dictionaries({"items": streams.stream(30), "callbacks": st.lists(callback_st, min_size=2, max_size=6)})
+case_st = st.fixed_dictionaries({
+    "items": streams.stream(30), "callbacks": st.lists(callback_st, min_size=2, max_size=6),
+    "writes": st.lists(st.fixed_dictionaries({"at": st.integers(0, 40), "k": st.integers(0, 30)}), max_size=3),
+})
 
 SUBCHECKS = {"events": check_events}
 
